@@ -349,6 +349,11 @@ struct Mon<'a> {
 	state_digest: u64,
 	since_state_check: u32,
 	last_dump: Vec<(Vec<u8>, Vec<u8>)>,
+	/// percentage of the non-valid inputs to run (valgrind jobs run a deterministic sample)
+	pct: u64,
+	/// CPU seconds per input above which the input counts as unbounded work (raised under sanitizers / valgrind,
+	/// where the native run is the one that judges CPU use)
+	cpu_limit: f64,
 }
 
 impl<'a> Mon<'a> {
@@ -392,6 +397,9 @@ impl<'a> Mon<'a> {
 
 	fn run(&mut self, e: usize, input: &[u8], class: &str) {
 		let name = ENTRIES[e];
+		if self.pct < 100 && class != "valid" && hash64(&(e, input)) % 100 >= self.pct {
+			return;
+		}
 		self.rep.eval();
 		CASE_NO.fetch_add(1, Ordering::Relaxed);
 		CASE_START_CPU_MS.store(process_cpu_ms(), Ordering::Relaxed);
@@ -427,7 +435,7 @@ impl<'a> Mon<'a> {
 					);
 				}
 				self.rep.max("max:peak-alloc-bytes", peak);
-				if cpu > 5.0 {
+				if cpu > self.cpu_limit {
 					self.rep.violation(
 						&format!("C09|cpu|{}", name),
 						&format!("{} used {:.1}s CPU on a {}-byte input", name, cpu, input.len()),
@@ -803,7 +811,7 @@ pub fn run(a: &Args) {
 	};
 	let _ = cx.dec_key_bytes;
 	STRIDE.store(((a.nshards as u64) << 32) | a.shard as u64, Ordering::Relaxed);
-	start_watchdog(60);
+	start_watchdog(std::cmp::max(60, 4 * a.get_u64("cpulimit", 5)));
 	let journal = Journal::new(&format!("{}.journal", a.out));
 
 	if let Some(rp) = &a.replay {
@@ -812,7 +820,7 @@ pub fn run(a: &Args) {
 		let entry = c["entry"].as_str().unwrap_or("");
 		if let (Some(e), Some(input)) = (ENTRIES.iter().position(|n| *n == entry), c["input_hex"].as_str().and_then(unhex)) {
 			let state_digest = 0;
-			let mut mon = Mon { rep: &mut rep, journal, cx: &cx, state_digest, since_state_check: 0, last_dump: vec![] };
+			let mut mon = Mon { rep: &mut rep, journal, cx: &cx, state_digest, since_state_check: 0, last_dump: vec![], pct: 100, cpu_limit: 5.0 };
 			mon.state_digest = mon.wallet_digest();
 			mon.run(e, &input, "replay");
 		} else {
@@ -825,7 +833,7 @@ pub fn run(a: &Args) {
 	global::set_local_chain_type(global::ChainTypes::AutomatedTesting);
 	let g = SlateGen::new(&mut rng);
 	let mut st = FieldStats::default();
-	let mut mon = Mon { rep: &mut rep, journal, cx: &cx, state_digest: 0, since_state_check: 0, last_dump: vec![] };
+	let mut mon = Mon { rep: &mut rep, journal, cx: &cx, state_digest: 0, since_state_check: 0, last_dump: vec![], pct: a.get_u64("pct", 100), cpu_limit: a.get_u64("cpulimit", 5) as f64 };
 	mon.state_digest = mon.wallet_digest();
 	let scale = if a.thorough() { 12 } else { 1 };
 
